@@ -56,7 +56,7 @@ def run(ctx):
     for i, clauses in sorted(mfailed.items()):
         m = meta[i]
         for cl in clauses:
-            ctx.report(f"{cl}|{m['model']}|{m['orient']}",
+            ctx.report(f"{cl}|{m['model']}|{m['orient']}|{m.get('point')}",
                        f"{cl} fails for registered model {m['model']} "
                        f"({m['orient']}ending abscissa): {m}",
                        {"kind": "meta", "model": m["model"]})
